@@ -16,6 +16,7 @@ func runC01(r *Run) {
 		specs = append(specs,
 			Spec{Name: "arr-small-T256-L5", Kind: "arr-small", T: 256, L: 5, Classes: []string{"t", "mid", "limA", "limA+"}, Oracles: or},
 			Spec{Name: "arr-nested-T256-L4", Kind: "arr-small", T: 256, L: 4, Classes: []string{"t", "limA", "A", "M:t", "s:A:t"}, Oracles: or},
+			Spec{Name: "arr-nested-big-T256-L3", Kind: "arr-small", T: 256, L: 3, Classes: []string{"t", "s:A:limA-,limA-", "A:limA-,limA-", "s:M:limM,limM", "ss:A"}, Oracles: or},
 		)
 	} else {
 		specs = append(specs,
